@@ -13,7 +13,9 @@ import itertools
 from fractions import Fraction
 from math import factorial
 
-from pyvc.engine import contract
+import numpy as rnp
+
+from pyvc.engine import bounded, contract
 
 TRI = "trimesh.triangles"
 INR = "trimesh.inertia"
@@ -309,3 +311,90 @@ def trimesh_area(h):
     h.check("area_faces=|cross|/2", h.forall(N, row))
     tot = h.method(BASE + ".area")(Ghost(area_faces=af))
     h.check("area=sum(area_faces)", h.eq(tot, af.sum()))
+
+
+# ----------------------------------------------------------------------------- bounded: number types and an exact reference
+
+
+@bounded("C03", name="real-code:exact-integrals-for-every-input-number-type", note="closed meshes with dyadic coordinates (exact in float16/32/64) far from the origin: triangles.mass_properties and Trimesh volume / centre of mass / inertia against the integrals computed in exact rational arithmetic; float64, float32, float16, int64, int32 and Fortran-ordered input")
+def exact_reference(tier, seed):
+    from fractions import Fraction
+
+    import trimesh
+
+    cells = {}
+    cases = 0
+
+    def fail(key, detail=""):
+        c = cells.setdefault(key, {"what": key, "cell": key, "detail": str(detail)[:200], "count": 0})
+        c["count"] += 1
+
+    def exact(tris):
+        """volume, first moments, second moments by exact signed-tetrahedron sums"""
+        V = Fraction(0)
+        M1 = [Fraction(0)] * 3
+        M2 = [[Fraction(0)] * 3 for _ in range(3)]
+        for t in tris:
+            a, b, c = ([Fraction(float(x)) for x in p] for p in t)
+            det = a[0] * (b[1] * c[2] - b[2] * c[1]) - a[1] * (b[0] * c[2] - b[2] * c[0]) + a[2] * (b[0] * c[1] - b[1] * c[0])
+            V += det / 6
+            s = [a[i] + b[i] + c[i] for i in range(3)]
+            for i in range(3):
+                M1[i] += det * s[i] / 24
+                for j in range(3):
+                    M2[i][j] += det * (a[i] * a[j] + b[i] * b[j] + c[i] * c[j] + s[i] * s[j]) / 120
+        com = [M1[i] / V for i in range(3)]
+        # inertia about the centre of mass, unit density
+        I = [[Fraction(0)] * 3 for _ in range(3)]
+        tr = M2[0][0] + M2[1][1] + M2[2][2]
+        for i in range(3):
+            for j in range(3):
+                I[i][j] = (tr if i == j else 0) - M2[i][j] - V * ((com[0] ** 2 + com[1] ** 2 + com[2] ** 2 if i == j else 0) - com[i] * com[j])
+        return float(V), [float(x) for x in com], [[float(x) for x in r] for r in I]
+
+    solids = []
+    box = trimesh.creation.box(extents=[1.5, 2.25, 0.75])
+    ico = trimesh.creation.icosphere(subdivisions=1)
+    ico.vertices = rnp.round(ico.vertices * 64) / 64  # dyadic
+    for name, m in (("box", box), ("dyadic-icosphere", ico)):
+        for off in ([0.0, 0.0, 0.0], [28.5, -17.25, 9.0]):
+            mm = m.copy()
+            mm.apply_translation(off)
+            solids.append(("%s@%s" % (name, off), mm))
+    for sname, m in solids:
+        tri64 = rnp.asarray(m.triangles, dtype=rnp.float64)
+        vol, com, I = exact(tri64)
+        scale = max(1.0, float(rnp.abs(tri64).max()))
+        variants = [("float64", tri64), ("float32", tri64.astype(rnp.float32)), ("float64-fortran", rnp.asfortranarray(tri64))]
+        if float(rnp.abs(tri64 - tri64.astype(rnp.float16)).max()) == 0.0:
+            variants.append(("float16", tri64.astype(rnp.float16)))
+        if float(rnp.abs(tri64 * 64 - rnp.round(tri64 * 64)).max()) == 0.0:
+            ti = rnp.round(tri64 * 64).astype(rnp.int64)
+            variants += [("int64(x64)", ti), ("int32(x64)", ti.astype(rnp.int32))]
+        for vname, arr in variants:
+            cases += 1
+            try:
+                k = 64.0 if "x64" in vname else 1.0
+                mp = trimesh.triangles.mass_properties(arr, density=1.0)
+                if abs(mp["volume"] / k**3 - vol) > 1e-9 * max(1.0, abs(vol)):
+                    fail("mass_properties[%s]:volume-differs-from-the-exact-integral" % vname, "%s: %r vs %r" % (sname, mp["volume"] / k**3, vol))
+                if float(rnp.abs(rnp.asarray(mp["center_mass"]) / k - com).max()) > 1e-9 * scale:
+                    fail("mass_properties[%s]:centre-of-mass-differs-from-the-exact-integral" % vname, "%s: %s vs %s" % (sname, rnp.asarray(mp["center_mass"]) / k, com))
+                if float(rnp.abs(rnp.asarray(mp["inertia"]) / k**5 - rnp.array(I)).max()) > 1e-8 * scale**2 * max(1.0, abs(vol)):
+                    fail("mass_properties[%s]:inertia-differs-from-the-exact-integral" % vname, "%s: max |d| %g" % (sname, float(rnp.abs(rnp.asarray(mp["inertia"]) / k**5 - rnp.array(I)).max())))
+            except Exception as ex:  # noqa: BLE001
+                fail("mass_properties[%s]:raised %s" % (vname, type(ex).__name__), "%s: %s" % (sname, ex))
+        # the mesh-level values, and a mesh built from float32 vertices
+        for vname, mesh in (("Trimesh", m), ("Trimesh(float32 vertices)", trimesh.Trimesh(vertices=rnp.asarray(m.vertices, dtype=rnp.float32), faces=m.faces, process=False))):
+            cases += 1
+            try:
+                if abs(mesh.volume - vol) > 1e-9 * max(1.0, abs(vol)) or float(rnp.abs(mesh.center_mass - com).max()) > 1e-9 * scale or float(rnp.abs(mesh.moment_inertia - rnp.array(I)).max()) > 1e-8 * scale**2 * max(1.0, abs(vol)):
+                    fail("%s:mass-properties-differ-from-the-exact-integrals" % vname, sname)
+            except Exception as ex:  # noqa: BLE001
+                fail("%s:raised %s" % (vname, type(ex).__name__), "%s: %s" % (sname, ex))
+    fails = sorted(cells.values(), key=lambda c: c["cell"])
+    from contracts import common
+
+    r = common.result(cases, cases, fails, "4 dyadic solids x up to 6 input number types + 2 mesh-level variants", exhaustive=True)
+    r["failures"] = fails
+    return r
